@@ -73,6 +73,7 @@ const (
 	formDelete  // a dead closure binding or its `_ = name` keep-alive
 	formCond    // a call inside an if condition, hoisted under the guard of its evaluation
 	formRetPart // `return a, h(x)`: the call is one of several results, the others are pure
+	formLitPart // `x := &T{…, F: h(a), …}`: the call is one field value of a literal, the others are pure
 )
 
 type inliner struct {
@@ -409,6 +410,13 @@ func variadicLoop(info *types.Info, ft *ast.FuncType, body *ast.BlockStmt) *ast.
 
 // bodyOK: structural applicability of a callee body.
 func bodyOK(info *types.Info, ft *ast.FuncType, body *ast.BlockStmt) bool {
+	return bodyOKn(info, ft, body, false)
+}
+
+// bodyOKn: with single set (the helper is referenced exactly once in the program, so expanding it moves
+// code instead of copying it) the size bounds are ten times wider — "the body of f moved into fLocked
+// behind a wrapper that takes the lock" is a common split.
+func bodyOKn(info *types.Info, ft *ast.FuncType, body *ast.BlockStmt, single bool) bool {
 	if ft.TypeParams != nil {
 		return false
 	}
@@ -473,6 +481,9 @@ func bodyOK(info *types.Info, ft *ast.FuncType, body *ast.BlockStmt) bool {
 			})
 		}
 		walk(body)
+	}
+	if single {
+		return ok && nodes <= 10*inlineMaxNodes && stmts <= 10*inlineMaxStmts
 	}
 	return ok && nodes <= inlineMaxNodes && stmts <= inlineMaxStmts
 }
@@ -1706,6 +1717,15 @@ func (in *inliner) emitSite0(s *inlSite) (rope, bool) {
 		pre = append(pre, g("var %s %s\n", tmp, typeStr(sig.Results().At(0).Type(), q))...)
 		wrapOuter = true
 	}
+	if s.form == formLitPart {
+		// the other field values are read after the call instead of around it: the helper must not write
+		if sig.Results().Len() != 1 || s.callee == nil || !in.p.quietFunc(s.callee, 0) {
+			return nil, false
+		}
+		tmp := fmt.Sprintf("inl_l%d", s.id)
+		lhs = []string{tmp}
+		pre = append(pre, g("var %s %s\n", tmp, typeStr(sig.Results().At(0).Type(), q))...)
+	}
 	switch s.form {
 	case formAssign, formIfInit:
 		as, _ := s.stmt.(*ast.AssignStmt)
@@ -2152,6 +2172,12 @@ func (in *inliner) emitSite0(s *inlSite) (rope, bool) {
 		}
 		out = append(out, g("\n}\n")...)
 	}
+	if s.form == formLitPart {
+		in.exprRepl[s.call] = g("%s", lhs[0])
+		out = append(out, in.textOf(s.stmt)...)
+		delete(in.exprRepl, s.call)
+		out = append(out, g("\n")...)
+	}
 	if s.form == formRetPart {
 		rs := s.stmt.(*ast.ReturnStmt)
 		out = append(out, g("return ")...)
@@ -2172,6 +2198,18 @@ func (in *inliner) emitSite0(s *inlSite) (rope, bool) {
 // findSites classifies statement-level helper calls.
 func (in *inliner) findSites() {
 	p := in.p
+	// how often each function is referenced (called or used as a value) in the module
+	refs := map[*types.Func]int{}
+	for _, pk := range p.All {
+		if pk.TypesInfo == nil || !strings.HasPrefix(pk.PkgPath, modPath) {
+			continue
+		}
+		for id, o := range pk.TypesInfo.Uses {
+			if f, ok := o.(*types.Func); ok && id != nil {
+				refs[f.Origin()]++
+			}
+		}
+	}
 	for _, fn := range p.funcList {
 		info := fn.Info()
 		// local closures: single definition `name := func…`, never assigned again
@@ -2244,6 +2282,46 @@ func (in *inliner) findSites() {
 							}
 						}
 						return []cand{{c, formAssign}}
+					}
+					// a struct literal with one helper call among otherwise pure field values: hoisting
+					// the call in front of the statement keeps the order of everything observable
+					if len(t.Lhs) == 1 {
+						if _, isId := t.Lhs[0].(*ast.Ident); isId {
+							x := ast.Unparen(t.Rhs[0])
+							if u, ok := x.(*ast.UnaryExpr); ok && u.Op == token.AND {
+								x = ast.Unparen(u.X)
+							}
+							if cl, ok := x.(*ast.CompositeLit); ok {
+								if _, isStruct := info.TypeOf(cl).Underlying().(*types.Struct); isStruct {
+									var call *ast.CallExpr
+									for _, el := range cl.Elts {
+										kv, ok := el.(*ast.KeyValueExpr)
+										if !ok {
+											return nil
+										}
+										if c, ok := ast.Unparen(kv.Value).(*ast.CallExpr); ok {
+											if tv, isConv := info.Types[c.Fun]; isConv && tv.IsType() {
+												if !in.exprPure(info, kv.Value) {
+													return nil
+												}
+												continue
+											}
+											if call != nil {
+												return nil
+											}
+											call = c
+											continue
+										}
+										if !in.exprPure(info, kv.Value) {
+											return nil
+										}
+									}
+									if call != nil {
+										return []cand{{call, formLitPart}}
+									}
+								}
+							}
+						}
 					}
 				}
 			case *ast.ReturnStmt:
@@ -2405,7 +2483,7 @@ func (in *inliner) findSites() {
 							continue
 						}
 					}
-					if !bodyOK(info, ci.Decl.Type, ci.Decl.Body) {
+					if !bodyOKn(info, ci.Decl.Type, ci.Decl.Body, refs[obj] == 1) {
 						continue
 					}
 					s.callee = ci
